@@ -50,6 +50,11 @@ pub enum Prover {
     LatestSubThresholdSuffix,
     /// the latest set, the smallest suffix of signers whose combined weight reaches the threshold
     LatestSufficientSuffix,
+    /// the latest set's entries, but one signer's entry is listed (and signed) several times - as often as it takes
+    /// for the repeated weight to reach the threshold - while every other member is listed unsigned: not a proof by
+    /// the set (one key holder signed)
+    #[serde(alias = "LatestWithRepeatedEntries")]
+    LatestOneSignerRepeated(u16),
 }
 
 #[derive(Clone, Debug, Serialize, Deserialize, PartialEq, Eq)]
@@ -102,6 +107,7 @@ fn prover() -> impl Strategy<Value = Prover> {
         1 => Just(Prover::LatestSigningOtherCandidate),
         2 => Just(Prover::LatestSubThresholdSuffix),
         2 => Just(Prover::LatestSufficientSuffix),
+        2 => any::<u16>().prop_map(Prover::LatestOneSignerRepeated),
     ]
 }
 
@@ -402,7 +408,7 @@ impl Property for C03 {
                         Prover::Installed(i) => (installed[installed.len() - 1 - pick(i, installed.len())].clone(), true),
                         Prover::NeverInstalled => (SetGen { seeds: vec![950, 951], w: vec![WClass::One; 2], t: TClass::Total }.build(250), true),
                         Prover::LatestSigningOtherCandidate => (latest.clone(), false),
-                        Prover::LatestSubThresholdSuffix | Prover::LatestSufficientSuffix => (latest.clone(), true),
+                        Prover::LatestSubThresholdSuffix | Prover::LatestSufficientSuffix | Prover::LatestOneSignerRepeated(_) => (latest.clone(), true),
                     };
                     let ph = prover.hash();
                     if !model.is_latest(&ph) {
@@ -439,7 +445,27 @@ impl Property for C03 {
                         }
                         _ => (prover.full_mask(), true),
                     };
-                    let proof = prover.proof(&env, &dg, mask);
+                    let mut proof = prover.proof(&env, &dg, mask);
+                    let mut weight_ok = weight_ok;
+                    if let Prover::LatestOneSignerRepeated(i) = a.prover {
+                        let who = pick(i, n);
+                        let alone = prover.weights[who] >= prover.threshold;
+                        let mut pd = ProofData::honest(&prover, &dg, 1 << who);
+                        let entry = pd.entries[who];
+                        let mut carried = prover.weights[who];
+                        let mut copies = 1;
+                        while (carried < prover.threshold || copies < 2) && copies < 24 {
+                            pd.entries.insert(who, entry);
+                            carried = carried.saturating_add(prover.weights[who]);
+                            copies += 1;
+                        }
+                        cx.label(if alone { "proof_repeats_an_entry_of_a_signer_sufficient_alone" } else if carried >= prover.threshold { "proof_repeats_one_signers_entry_up_to_the_threshold" } else { "proof_repeats_one_signers_entry_below_threshold" });
+                        nontrivial = true;
+                        proof = pd.to_soroban(&env);
+                        // the listed entries are not the installed set, and (unless that signer suffices alone) one
+                        // key holder's weight is below the threshold
+                        weight_ok = false;
+                    }
 
                     let proof_ok = signs_this && weight_ok && model.live(&ph) && (model.is_latest(&ph) || a.bypass);
                     let auth_ok = !a.bypass || a.operator_auth;
